@@ -607,7 +607,8 @@ def call_matches(exp, got, gt):
     if exp[0] != got[0]:
         return False
     if exp[0] == 'readGraph':
-        return got[1][0] == exp[1][0] and got[1][1] == gt and got[1][2] == exp[1][2]
+        want = '<stdin>' if exp[1][0] == '-' else exp[1][0]      # the file name '-' stands for sys.stdin (graph_fileinput.py)
+        return got[1][0] == want and got[1][1] == gt and got[1][2] == exp[1][2]
     ea, ga_ = exp[1], got[1]
     if len(exp) > 2 and exp[2] != got[2]:
         return False
